@@ -110,3 +110,86 @@ def validate_fixed(ctx):
         ctx.count("corr:" + q.split()[0])
         if e != g:
             ctx.mismatch(q.split()[0], q[:120], e[:300], g[:300])
+
+
+# ------------------------------------------------------------------ load paths (harness/translate_load.py, ops tzload.*)
+def _obj_line(z):
+    return "%s %s" % (Z.hexs(z._filename), Z.impl_dump(z) if getattr(z, "_trans_list", None) is not None else "-")
+
+
+def validate_load(ctx, streams):
+    """tz.tzfile.__init__ (path / open stream with a name / BytesIO + filename= / None) and ZoneInfoFile.__init__ / get over archives
+    the harness builds (regular members, duplicates, hard and symbolic links, METADATA, a directory member, links that override a
+    file of the same name), against the TRANSLATED load paths"""
+    import io, os, tarfile, tempfile, shutil, warnings
+    from dateutil import tz
+    from dateutil.zoneinfo import ZoneInfoFile
+    rng = ctx.subrng("tzload")
+    streams = [(n, d) for n, d in streams if Z.impl_load(d)[0] is not None and len(d) < 6000]
+    pick = streams if len(streams) <= 24 else rng.sample(streams, 24)
+    tmp = tempfile.mkdtemp(prefix="verif-load-")
+    reqs, exp = [], []
+    try:
+        for k, (name, data) in enumerate(pick):
+            path = os.path.join(tmp, "zone%d" % k)
+            open(path, "wb").write(data)
+            hp, hd = Z.hexs(path), Z.hexs(data)
+            for fn in (None, "Label/Given"):
+                hf = "-" if fn is None else Z.hexs(fn)
+                reqs.append("tzload.file %s %s path - %s" % (hp, hd, hf)); exp.append("ok " + _obj_line(tz.tzfile(path, fn)))
+                with open(path, "rb") as f:
+                    reqs.append("tzload.file %s %s stream %s %s" % (hp, hd, hp, hf)); exp.append("ok " + _obj_line(tz.tzfile(f, fn)))
+            reqs.append("tzload.file %s %s stream - %s" % (hp, hd, Z.hexs("B"))); exp.append("ok " + _obj_line(tz.tzfile(io.BytesIO(data), "B")))
+            reqs.append("tzload.file %s %s none - %s" % (hp, hd, Z.hexs("N"))); exp.append("ok " + _obj_line(tz.tzfile(None, "N")))
+        # archives
+        for a in range(ctx.budget(6, 40)):
+            zs = rng.sample(pick, min(len(pick), rng.choice((1, 2, 3, 4))))
+            members, wire = [], []
+            names = []
+            for j, (n, d) in enumerate(zs):
+                nm = "Area%d/Zone%d" % (a, j)
+                members.append(("f", nm, d)); names.append(nm)
+            if rng.random() < 0.5:                                        # a duplicate regular member: the last one wins
+                members.append(("f", names[0], zs[-1][1]))
+            for j in range(rng.choice((0, 1, 2, 3))):
+                members.append(("l", "Link%d" % j, rng.choice(names), rng.random() < 0.5))
+            if rng.random() < 0.4:
+                members.append(("l", names[-1], names[0], True))         # a link with the name of a regular member overrides it
+            if rng.random() < 0.5:
+                members.append(("o", "Area%d" % a))
+            if rng.random() < 0.6:
+                members.insert(rng.randrange(len(members) + 1), ("f", "METADATA", b'{"tzversion": "2099z"}'))
+            buf = io.BytesIO()
+            with tarfile.open(fileobj=buf, mode="w") as tf:
+                for m in members:
+                    ti = tarfile.TarInfo(m[1])
+                    if m[0] == "f":
+                        ti.size = len(m[2]); tf.addfile(ti, io.BytesIO(m[2])); wire.append("f:%s:%s" % (Z.hexs(m[1]), Z.hexs(m[2])))
+                    elif m[0] == "l":
+                        ti.type = tarfile.SYMTYPE if m[3] else tarfile.LNKTYPE; ti.linkname = m[2]; tf.addfile(ti)
+                        wire.append("l:%s:%s:%d" % (Z.hexs(m[1]), Z.hexs(m[2]), int(m[3])))
+                    else:
+                        ti.type = tarfile.DIRTYPE; tf.addfile(ti); wire.append("o:%s" % Z.hexs(m[1]))
+            buf.seek(0)
+            queries = sorted({m[1] for m in members}) + ["No/Such"]
+            try:
+                with warnings.catch_warnings():
+                    warnings.simplefilter("ignore")
+                    zif = ZoneInfoFile(buf)
+                parts = []
+                for q in queries:
+                    o = zif.get(q)
+                    parts.append("-" if o is None else "%s@%s" % (Z.hexs(o._filename), Z.impl_dump(o)))
+                meta = "-" if zif.metadata is None else Z.hexs('{"tzversion": "2099z"}')
+                line = "ok " + " | ".join(parts) + " meta=" + meta
+            except Exception as ex:
+                line = "err " + Z.exc_name(ex)
+            reqs.append("tzload.archive %s %s" % (";".join(wire), ",".join(Z.hexs(q) for q in queries))); exp.append(line)
+    finally:
+        shutil.rmtree(tmp, ignore_errors=True)
+    got = ctx.driver(reqs)
+    for q, e, g in zip(reqs, exp, got):
+        ctx.traces += 1
+        ctx.count("corr:" + q.split()[0])
+        if e != g:
+            ctx.mismatch(q.split()[0], q[:160], e[:300], g[:300])
